@@ -58,7 +58,7 @@ var clauseKeywords = map[string]bool{
 	"func": true, "props": true, "requires": true, "ensures": true, "loop": true, "lit": true,
 	"decreases": true, "assigns": true, "yields": true, "panics": true, "pure": true, "trusted": true,
 	"note": true, "hint": true, "lemma": true, "ghost": true, "invariant": true, "inline": true,
-	"effects": true, "reads": true, "heapfree": true, "stable": true, "calllog": true, "noglobals": true, "functional": true, "abstract": true, "nopanic": true, "maypanic": true, "assume": true,
+	"effects": true, "reads": true, "heapfree": true, "stable": true, "calllog": true, "fnvalue-calllog": true, "preserves": true, "fresh-result": true, "noglobals": true, "functional": true, "abstract": true, "nopanic": true, "maypanic": true, "assume": true,
 }
 
 func parseContractFile(p *Program, pkg *packages.Package, f *ast.File) ([]*Contract, error) {
@@ -253,7 +253,7 @@ func splitTopLevel(s string, sep byte) []string {
 }
 
 var specWords = map[string]string{
-	"old": "spec_old", "entry": "spec_entry", "has": "spec_has", "fresh": "spec_fresh", "eq": "spec_eq",
+	"old": "spec_old", "entry": "spec_entry", "has": "spec_has", "fresh": "spec_fresh", "eq": "spec_eq", "existed": "spec_existed",
 }
 
 // desugar rewrites the clause language (forall/exists/==>/<==>/old/has/...) into type-checkable Go.
